@@ -107,7 +107,8 @@ def leg_mutant(rep, work, spec, name, cfg, expect, workers=NPROC, timeout=600):
 
 
 def leg_r(rep, work, spec, name, cfg, driver_factory, internal=(), nproc=NPROC, max_len=80,
-          budget_s=None, kf_text=None, timeout=1800, obs_var="obs", edge_filter=None, require_full=True):
+          budget_s=None, kf_text=None, timeout=1800, obs_var="obs", edge_filter=None, require_full=True,
+          kf_classify=None):
     """dump the conformance graph and replay every edge into the real code"""
     p = tlc.write_cfg(cfg, work.dir, f"{spec}_{name}.cfg")
     dump = work.path(f"{spec}_{name}_graph")
@@ -133,8 +134,29 @@ def leg_r(rep, work, spec, name, cfg, driver_factory, internal=(), nproc=NPROC, 
     rep.log(f"leg R {spec}/{name}: graph {len(g.raw)} states / {st['edges_total']} edges; covered "
             f"{st['edges_covered']} (+{st['edges_alternative']} alt, {st['edges_uncovered']} left) in "
             f"{st['runs']} runs / {st['steps']} impl steps; dump {t1 - t0:.1f}s parse {t2 - t1:.1f}s replay {t3 - t2:.1f}s")
-    for kid, n in st["known_finding_hits"].items():
-        rep.known(kid, (kf_text or {}).get(kid, "") + f" (met {n}x in replay)")
+    cases = st.pop("known_finding_cases", [])
+    if kf_classify is not None:
+        # the property module turns (action, differing fields, scenario) into listed finding ids; a deviation
+        # that matches no listed finding is a violation
+        from .report import known_findings
+        listed = {k.get("id") for k in known_findings(rep.pid)}
+        seen = {}
+        for c in cases:
+            fid = kf_classify(c)
+            if fid is not None and not set(fid if isinstance(fid, (list, tuple)) else [fid]) <= listed:
+                fid = None  # only findings listed in known_findings.json may be reported as known
+            if fid is None:
+                rep.violation(dict(leg="R", spec=spec, cfg=name, why="deviation not covered by any listed known finding",
+                                   action=c["action"], observed=c["observed"], expected=[c["intended"]],
+                                   path=c["path"], init=c["init"], diff=c["diff"]), tag="R")
+            else:
+                for f in (fid if isinstance(fid, (list, tuple)) else [fid]):
+                    seen[f] = seen.get(f, 0) + 1
+        for f, n in sorted(seen.items()):
+            rep.known(f, (kf_text or {}).get(f, "") + f" ({n} distinct cases in replay)")
+    else:
+        for kid, n in st["known_finding_hits"].items():
+            rep.known(kid, (kf_text or {}).get(kid, "") + f" (met {n}x in replay)")
     for v in violations[:5]:
         rep.violation(dict(leg="R", spec=spec, cfg=name, **v), tag="R")
     if not violations and st["edges_uncovered"] and require_full and not budget_s:
